@@ -47,3 +47,34 @@ fn('emmet.css_matcher.scan:is_known_selector_colon', props=P,
    requires=['wf(scanner)'],
    ensures=CONSUMER + ['implies(not result, scanner.pos == old(scanner.pos))'],
    modifies=['scanner.pos'])
+
+# ---------------------------------------------------------------------------------------
+# scan(): the callback contract is where C16's "every reported range is well-formed" lives
+# ---------------------------------------------------------------------------------------
+CSS_CALLBACK = {
+    'param': 'callback',
+    'args': ['token_type', 'start', 'end', 'delimiter'],
+    'requires': ['0 <= start', 'start <= end', 'end <= len(source)',
+                 'delimiter == -1 or (0 <= delimiter and delimiter < len(source))'],
+    'returns': 'any',
+}
+
+define('css_state_ok', ['state', 'pos'],
+       '((state.start == -1 and state.end == -1) or (0 <= state.start and state.start <= state.end and state.end <= pos))'
+       ' and (state.property_start == -1 or (0 <= state.property_start and state.property_start <= state.property_end'
+       '      and state.property_end <= state.property_delimiter and state.property_delimiter < pos))'
+       # a token consumed after a delimiter starts after that delimiter
+       ' and (state.property_start == -1 or state.start == -1 or state.property_delimiter < state.start)')
+
+fn('emmet.css_matcher.scan:scan', props=P,
+   params={'source': 'str', 'callback': 'fn'}, returns='none',
+   requires=[],
+   ensures=[],
+   modifies=[],
+   callback=CSS_CALLBACK,
+   loops={0: {'anchor': 'while not scanner.eof()',
+              'invariant': ['wf(scanner)', 'scanner.pos <= scanner.end', 'scanner.end == len(source)',
+                            'same_str(scanner.string, source)',
+                            'css_state_ok(state, scanner.pos)'],
+              'decreases': 'scanner.end - scanner.pos'}})
+fn('emmet.css_matcher.scan:scan.<locals>.notify', inline=True, props=P)
